@@ -4157,6 +4157,72 @@ func (d *Document) parseAnchorDrawing(decoder *xml.Decoder, startElement xml.Sta
 					return nil, err
 				}
 				anchor.Graphic = graphic
+			case "simplePos":
+				anchor.SimplePosition = &SimplePosition{
+					X: getAttributeValue(t.Attr, "x"),
+					Y: getAttributeValue(t.Attr, "y"),
+				}
+				if err := d.skipElement(decoder, t.Name.Local); err != nil {
+					return nil, err
+				}
+			case "positionH":
+				align, offset, err := d.parseDrawingPosition(decoder, t.Name.Local)
+				if err != nil {
+					return nil, err
+				}
+				anchor.PositionH = &HorizontalPosition{RelativeFrom: getAttributeValue(t.Attr, "relativeFrom"), Align: align, PosOffset: offset}
+			case "positionV":
+				align, offset, err := d.parseDrawingPosition(decoder, t.Name.Local)
+				if err != nil {
+					return nil, err
+				}
+				anchor.PositionV = &VerticalPosition{RelativeFrom: getAttributeValue(t.Attr, "relativeFrom"), Align: align, PosOffset: offset}
+			case "effectExtent":
+				anchor.EffectExtent = &EffectExtent{
+					L: getAttributeValue(t.Attr, "l"),
+					T: getAttributeValue(t.Attr, "t"),
+					R: getAttributeValue(t.Attr, "r"),
+					B: getAttributeValue(t.Attr, "b"),
+				}
+				if err := d.skipElement(decoder, t.Name.Local); err != nil {
+					return nil, err
+				}
+			case "wrapTight":
+				polygon, err := d.parseWrapPolygon(decoder, t.Name.Local)
+				if err != nil {
+					return nil, err
+				}
+				anchor.WrapTight = &WrapTight{
+					WrapText:    getAttributeValue(t.Attr, "wrapText"),
+					DistL:       getAttributeValue(t.Attr, "distL"),
+					DistR:       getAttributeValue(t.Attr, "distR"),
+					WrapPolygon: polygon,
+				}
+			case "wrapThrough":
+				polygon, err := d.parseWrapPolygon(decoder, t.Name.Local)
+				if err != nil {
+					return nil, err
+				}
+				anchor.WrapThrough = &WrapThrough{
+					WrapText:    getAttributeValue(t.Attr, "wrapText"),
+					DistL:       getAttributeValue(t.Attr, "distL"),
+					DistR:       getAttributeValue(t.Attr, "distR"),
+					WrapPolygon: polygon,
+				}
+			case "wrapTopAndBottom":
+				anchor.WrapTopAndBottom = &WrapTopAndBottom{
+					DistT: getAttributeValue(t.Attr, "distT"),
+					DistB: getAttributeValue(t.Attr, "distB"),
+				}
+				if err := d.skipElement(decoder, t.Name.Local); err != nil {
+					return nil, err
+				}
+			case "cNvGraphicFramePr":
+				framePr, err := d.parseCNvGraphicFramePr(decoder)
+				if err != nil {
+					return nil, err
+				}
+				anchor.CNvGraphicFramePr = framePr
 			case "wrapNone":
 				anchor.WrapNone = &WrapNone{}
 				if err := d.skipElement(decoder, t.Name.Local); err != nil {
@@ -4190,6 +4256,120 @@ func (d *Document) parseAnchorDrawing(decoder *xml.Decoder, startElement xml.Sta
 		case xml.EndElement:
 			if t.Name.Local == "anchor" {
 				return anchor, nil
+			}
+		}
+	}
+}
+
+// parseDrawingPosition 解析 wp:positionH / wp:positionV 的子元素（wp:align 或 wp:posOffset）
+func (d *Document) parseDrawingPosition(decoder *xml.Decoder, endName string) (*PosAlign, *PosOffset, error) {
+	var align *PosAlign
+	var offset *PosOffset
+	for {
+		token, err := decoder.Token()
+		if err != nil {
+			return nil, nil, WrapError("parse_drawing_position", err)
+		}
+
+		switch t := token.(type) {
+		case xml.StartElement:
+			switch t.Name.Local {
+			case "align":
+				value, err := d.readElementText(decoder, "align")
+				if err != nil {
+					return nil, nil, err
+				}
+				align = &PosAlign{Value: value}
+			case "posOffset":
+				value, err := d.readElementText(decoder, "posOffset")
+				if err != nil {
+					return nil, nil, err
+				}
+				offset = &PosOffset{Value: value}
+			default:
+				if err := d.skipElement(decoder, t.Name.Local); err != nil {
+					return nil, nil, err
+				}
+			}
+		case xml.EndElement:
+			if t.Name.Local == endName {
+				return align, offset, nil
+			}
+		}
+	}
+}
+
+// parseWrapPolygon 解析 wp:wrapTight / wp:wrapThrough 中的环绕多边形
+func (d *Document) parseWrapPolygon(decoder *xml.Decoder, endName string) (*WrapPolygon, error) {
+	var polygon *WrapPolygon
+	for {
+		token, err := decoder.Token()
+		if err != nil {
+			return nil, WrapError("parse_wrap_polygon", err)
+		}
+
+		switch t := token.(type) {
+		case xml.StartElement:
+			switch t.Name.Local {
+			case "wrapPolygon":
+				if polygon == nil {
+					polygon = &WrapPolygon{}
+				}
+			case "start":
+				if polygon != nil {
+					polygon.Start = &PolygonStart{X: getAttributeValue(t.Attr, "x"), Y: getAttributeValue(t.Attr, "y")}
+				}
+				if err := d.skipElement(decoder, t.Name.Local); err != nil {
+					return nil, err
+				}
+			case "lineTo":
+				if polygon != nil {
+					polygon.LineTo = append(polygon.LineTo, PolygonLineTo{X: getAttributeValue(t.Attr, "x"), Y: getAttributeValue(t.Attr, "y")})
+				}
+				if err := d.skipElement(decoder, t.Name.Local); err != nil {
+					return nil, err
+				}
+			default:
+				if err := d.skipElement(decoder, t.Name.Local); err != nil {
+					return nil, err
+				}
+			}
+		case xml.EndElement:
+			if t.Name.Local == endName {
+				return polygon, nil
+			}
+		}
+	}
+}
+
+// parseCNvGraphicFramePr 解析 wp:cNvGraphicFramePr
+func (d *Document) parseCNvGraphicFramePr(decoder *xml.Decoder) (*CNvGraphicFramePr, error) {
+	framePr := &CNvGraphicFramePr{}
+	for {
+		token, err := decoder.Token()
+		if err != nil {
+			return nil, WrapError("parse_cnv_graphic_frame_pr", err)
+		}
+
+		switch t := token.(type) {
+		case xml.StartElement:
+			if t.Name.Local == "graphicFrameLocks" {
+				framePr.GraphicFrameLocks = &GraphicFrameLocks{
+					Xmlns:          getAttributeValue(t.Attr, "a"),
+					NoChangeAspect: getAttributeValue(t.Attr, "noChangeAspect"),
+					NoCrop:         getAttributeValue(t.Attr, "noCrop"),
+					NoMove:         getAttributeValue(t.Attr, "noMove"),
+					NoResize:       getAttributeValue(t.Attr, "noResize"),
+					NoRot:          getAttributeValue(t.Attr, "noRot"),
+					NoSelect:       getAttributeValue(t.Attr, "noSelect"),
+				}
+			}
+			if err := d.skipElement(decoder, t.Name.Local); err != nil {
+				return nil, err
+			}
+		case xml.EndElement:
+			if t.Name.Local == "cNvGraphicFramePr" {
+				return framePr, nil
 			}
 		}
 	}
@@ -4362,12 +4542,11 @@ func (d *Document) parseNvPicPr(decoder *xml.Decoder, startElement xml.StartElem
 					return nil, err
 				}
 			case "cNvPicPr":
-				cNvPicPr := &CNvPicPr{}
-				// 解析picLocks如果存在
-				nvPicPr.CNvPicPr = cNvPicPr
-				if err := d.skipElement(decoder, t.Name.Local); err != nil {
+				cNvPicPr, err := d.parseCNvPicPr(decoder)
+				if err != nil {
 					return nil, err
 				}
+				nvPicPr.CNvPicPr = cNvPicPr
 			default:
 				if err := d.skipElement(decoder, t.Name.Local); err != nil {
 					return nil, err
@@ -4376,6 +4555,34 @@ func (d *Document) parseNvPicPr(decoder *xml.Decoder, startElement xml.StartElem
 		case xml.EndElement:
 			if t.Name.Local == "nvPicPr" {
 				return nvPicPr, nil
+			}
+		}
+	}
+}
+
+// parseCNvPicPr 解析 pic:cNvPicPr（包含可选的 a:picLocks）
+func (d *Document) parseCNvPicPr(decoder *xml.Decoder) (*CNvPicPr, error) {
+	cNvPicPr := &CNvPicPr{}
+	for {
+		token, err := decoder.Token()
+		if err != nil {
+			return nil, WrapError("parse_cnv_pic_pr", err)
+		}
+
+		switch t := token.(type) {
+		case xml.StartElement:
+			if t.Name.Local == "picLocks" {
+				cNvPicPr.PicLocks = &PicLocks{
+					NoChangeAspect:     getAttributeValue(t.Attr, "noChangeAspect"),
+					NoChangeArrowheads: getAttributeValue(t.Attr, "noChangeArrowheads"),
+				}
+			}
+			if err := d.skipElement(decoder, t.Name.Local); err != nil {
+				return nil, err
+			}
+		case xml.EndElement:
+			if t.Name.Local == "cNvPicPr" {
+				return cNvPicPr, nil
 			}
 		}
 	}
